@@ -149,14 +149,26 @@ def construct(case):
             holder = {}
             v0, sh = case.get("var0", 0.25), case.get("shrink", 0.5)
 
+            hi_above = case.get("var_hi_above")
+
             def fallback(x, holder=holder):
                 k = holder["m"].update_calls if "m" in holder else 0
-                return fn(np.asarray(x, dtype=float)[None, :])[0], np.full(m, v0 * sh ** k)
+                v = v0 * sh ** k
+                if hi_above is not None and float(np.asarray(x).reshape(-1)[0]) > hi_above:
+                    v = v * 64.0
+                return fn(np.asarray(x, dtype=float)[None, :])[0], np.full(m, v)
 
             mdl = stubs.ScriptedModel(np.zeros((0, in_dim)), np.zeros((0, m)), np.zeros((0, m, m)),
                                       fallback=fallback, lengthscales=[case.get("ls", 0.5)] * m)
             holder["m"] = mdl
-        return stubs.build(name, problem=pr, order=order, epsilon=eps, delta=delta, noise_var=nv, model=mdl, **kw)
+        a = stubs.build(name, problem=pr, order=order, epsilon=eps, delta=delta, noise_var=nv, model=mdl, **kw)
+        force = case.get("force")
+        if force:  # hand-made reachable-by-assignment state (regression shapes the real runs never reach)
+            for i in force["refine"]:
+                a.design_space.refine_design(i)
+            a.S, a.P = set(force["S"]), set(force["P"])
+            a.enable_epsilon_covering = bool(force.get("latch", False))
+        return a
     n = case["K"]
     X, Y = design_inputs(n)[:n], np.array(case["Y"], dtype=float)
     mk = case.get("model", "scripted")
@@ -328,19 +340,18 @@ def parse_step(s):
 
 
 def auer_margin(alg, S_pre, centres, rows):
-    """smallest |lhs − rhs| over the comparisons Auer's two phases can make this round"""
+    """smallest |lhs − rhs| over the comparisons Auer's two phases can make this round (`rows[i]` is the
+    width row of design `i`)"""
     eps = alg.epsilon
     best = np.inf
-    pos = {d: k for k, d in enumerate(S_pre)}
     for i in S_pre:
         for j in S_pre:
             if i == j:
                 continue
-            b = rows[min(pos[i], len(rows) - 1)] + rows[min(pos[j], len(rows) - 1)]
+            b = rows[i] + rows[j]
             sm = max(0, np.min(centres[j] - centres[i]))
             bm = max(0, np.max((centres[i] + eps) - centres[j]))
             best = min(best, float(np.min(np.abs(sm - b))), float(np.min(np.abs(bm - b))))
-    # positions shift after discarding: all row pairs can meet all design pairs
     return best
 
 
@@ -437,7 +448,7 @@ def gen_table_case(rng, name=None):
 
 
 REAL_ALGS = ["PaVeBa", "PaVeBa", "PaVeBaGP-IH", "PaVeBaGP-DE", "PaVeBaPartialGP-rect", "PaVeBaPartialGP-ell", "VOGP",
-             "EpsilonPAL", "VOGP_AD", "Auer", "Auer", "NaiveElimination", "DecoupledGP", "DecoupledGP"]
+             "EpsilonPAL", "VOGP_AD", "Auer", "Auer", "Auer", "NaiveElimination", "DecoupledGP", "DecoupledGP"]
 
 
 def gen_real_case(rng, name=None, tier="quick"):
@@ -485,11 +496,24 @@ def structured_cases():
             c2 = dict(c)
             c2["batch"], c2["batch_mode"] = 6, "exceed"
             out.append(c2)
+    # VOGP_AD: a member of P below the maximum depth gets refined (unreachable from the constructor:
+    # P only receives nodes of maximal depth) — children must replace it in P
+    for seed in (1, 2):
+        out.append({"kind": "table", "alg": "VOGP_AD", "cone": "orthant2", "m": 2, "K": 0, "Y": [], "eps": 0.25,
+                    "delta": 0.05, "noise_var": 0.015625, "seed": seed, "extra": 2, "depth_max": 4,
+                    "coef": [[1.0, -1.0]], "ls": 0.05, "var0": 0.25, "shrink": 0.5, "var_hi_above": 0.5,
+                    "profile": {"name": "stuck", "dom": 0.0, "cov": 1.0, "pess": 0.0, "decay": 1.0},
+                    "force": {"refine": [0], "S": [1], "P": [2], "latch": False, "parent": [0, 0, 0]}})
     # real geometry: the two suspected crashes, and plain runs
     for name in ("PaVeBaGP-IH", "PaVeBaPartialGP-rect"):
         out.append({"kind": "real", "alg": name, "cone": "threefacet2", "m": 2, "K": 5, "Y": Y2, "eps": 0.25,
                     "delta": 0.05, "noise_var": 0.015625, "seed": 3, "extra": 2, "batch": 1, "var0": 0.25,
                     "shrink": 0.5, "conf_contraction": 4})
+    # VOGP_AD on a real (fixed hyper-parameter) GP over a 1-D input: `calculate_design_vh` indexes the ARD
+    # lengthscale vector (one entry per INPUT dimension, squeezed to 0-d here) by OBJECTIVE
+    out.append({"kind": "real", "alg": "VOGP_AD", "cone": "orthant2", "m": 2, "K": 0, "Y": [], "eps": 0.25,
+                "delta": 0.05, "noise_var": 0.015625, "seed": 4, "extra": 2, "depth_max": 3,
+                "coef": [[1.0, -1.0]], "model": "fixed"})
     out.append({"kind": "real", "alg": "NaiveElimination", "cone": "orthant2", "m": 2, "K": 3, "Y": Y2[:3],
                 "eps": 0.25, "delta": 0.05, "noise_var": 0.015625, "seed": 5, "extra": 3, "L": 3})
     out.append({"kind": "real", "alg": "DecoupledGP", "cone": "acute2", "m": 2, "K": 4, "Y": Y2[:4], "eps": 0.25,
@@ -510,8 +534,8 @@ def gen(ctx):
             yield c
     # every algorithm at least once per stream, then random
     first = ctx.worker == 0
-    n_table = ctx.n(48, 2200)
-    n_real = ctx.n(22, 800)
+    n_table = ctx.n(260, 6000)
+    n_real = ctx.n(200, 4000)
     names_t = list(TABLE_ALGS) if first else []
     for k in range(n_table):
         yield gen_table_case(rng, names_t[k] if k < len(names_t) else None)
@@ -523,6 +547,17 @@ def gen(ctx):
 # --------------------------------------------------------------------------------------------
 # one case
 # --------------------------------------------------------------------------------------------
+def viol(ctx, key, what, case, kind="R", detail=None):
+    """one record per key and worker (the first input that showed it); repeats are only counted, so that
+    a frequent finding cannot crowd a new one out of the bounded violation list"""
+    seen = ctx.__dict__.setdefault("_c06_seen", set())
+    if key in seen:
+        ctx.count("repeat_" + key.split(":")[0] + ":" + key.split(":")[1][:40])
+        return
+    seen.add(key)
+    ctx.violation(key, what, case, kind=kind, detail=detail)
+
+
 def run_case(ctx, case):
     name = case["alg"]
     kind = case["kind"]
@@ -551,7 +586,7 @@ def _run(ctx, case, name, kind):
     try:
         alg = construct(case)
     except Exception as e:
-        ctx.violation(crash_key(e, case, False) + ":constructor",
+        viol(ctx, crash_key(e, case, False) + ":constructor",
                       f"{name} constructor raised {type(e).__name__}: {e}", pub,
                       detail={"traceback": traceback.format_exc()[-3000:]})
         ctx.case_done(pub, True)
@@ -560,9 +595,13 @@ def _run(ctx, case, name, kind):
     cfg = cfg_str(case, alg)
     init_model = ctx.ask("init", cfg)
     parent = [0] if name == "VOGP_AD" else []
+    forced = bool(case.get("force"))
+    if forced:
+        parent = list(case["force"]["parent"])
     prev = snapshot(alg, name)
-    if init_model != state_str(prev, parent):
-        ctx.violation(f"init-state:{name}", "state right after the constructor differs from the model's initial state",
+    start_state = state_str(prev, parent)
+    if not forced and init_model != state_str(prev, parent):
+        viol(ctx, f"init-state:{name}", "state right after the constructor differs from the model's initial state",
                       pub, kind="F", detail={"impl": state_str(prev, parent), "model": init_model})
     table_stream = kind == "table" and name in TABLE_ALGS
     if table_stream:
@@ -648,9 +687,16 @@ def _run(ctx, case, name, kind):
         centres = rows = None
         if name == "Auer" and exc is None and prev["S"]:
             centres = np.zeros((case["K"], case["m"]))
+            rows = np.zeros((case["K"], case["m"]))
             for i in prev["S"]:
                 centres[i] = alg.design_space.confidence_regions[i].center
-            rows = np.atleast_2d(np.asarray(alg.beta_t, dtype=float))
+            bt = alg.beta_t
+            if isinstance(bt, dict):  # widths keyed by design
+                for i, w in bt.items():
+                    rows[int(i)] = np.asarray(w, dtype=float)
+            else:  # positional rows, aligned with the iteration order of S at modelling time
+                for i, w in zip(prev["S"], np.atleast_2d(np.asarray(bt, dtype=float))):
+                    rows[i] = w
             if not (np.all(np.isfinite(centres)) and np.all(np.isfinite(rows))):
                 centres = rows = None
         picks, refine_ans, refined = [], False, None
@@ -673,7 +719,7 @@ def _run(ctx, case, name, kind):
             crashed = (r, exc)
             break
         if table_stream and orc.problems:
-            ctx.violation(f"oracle-args:{name}", f"{name}: geometry predicate called irregularly: {orc.problems[0]}",
+            viol(ctx, f"oracle-args:{name}", f"{name}: geometry predicate called irregularly: {orc.problems[0]}",
                           {k: v for k, v in case.items() if k != "N"}, kind="F", detail={"problems": orc.problems[:5]})
             del orc.problems[:]
         cur = snapshot(alg, name)
@@ -693,7 +739,7 @@ def _run(ctx, case, name, kind):
         # whole-run (R): a design that left S never returns
         back = left_S & set(cur["S"])
         if back:
-            ctx.violation(f"returned-to-S:{name}", f"design(s) {sorted(back)} had left S and are candidates again",
+            viol(ctx, f"returned-to-S:{name}", f"design(s) {sorted(back)} had left S and are candidates again",
                           pub, detail={"round": r, "S": cur["S"]})
         left_S |= set(prev["S"]) - set(cur["S"])
         prev = cur
@@ -706,7 +752,7 @@ def _run(ctx, case, name, kind):
         a = ctx.ask("spec", cfg, state_str(st["prev"], st["parent_prev"]), state_str(st["cur"], st["parent_cur"]),
                     out_str(st["done"], st["req"], st["refined"]))
         if a != "ok":
-            ctx.violation(f"spec:{a}:{name}", f"{name}: call {k + 1} violates the run relation ({a})", pub,
+            viol(ctx, f"spec:{a}:{name}", f"{name}: call {k + 1} violates the run relation ({a})", pub,
                           detail={"call": k + 1, "before": st["prev"], "after": st["cur"], "returned": st["done"],
                                   "requested": st["req"], "refined": st["refined"]})
             break
@@ -714,16 +760,19 @@ def _run(ctx, case, name, kind):
     if steps:
         last = steps[-1]["cur"]
         if last["sc"] != len(total_reqs):
-            ctx.violation(f"sample-count-total:{name}", f"sample_count {last['sc']} but {len(total_reqs)} evaluations "
+            viol(ctx, f"sample-count-total:{name}", f"sample_count {last['sc']} but {len(total_reqs)} evaluations "
                           "were requested from the problem", pub)
         costs = getattr(alg, "costs", None)
         if costs is not None and hasattr(alg, "total_cost"):
             want = sum((core.frac(costs[o]) for _, o in total_reqs if o is not None), Fraction(0))
             if want != last["cost"]:
-                ctx.violation(f"total-cost-total:{name}", f"total_cost {float(last['cost'])} but the requested "
+                viol(ctx, f"total-cost-total:{name}", f"total_cost {float(last['cost'])} but the requested "
                               f"evaluations cost {float(want)}", pub)
     # ---- (F) the model's trajectory on the recorded environment
-    ans = ctx.ask("run", cfg, *envs) if envs else "_"
+    if forced:
+        ans = ctx.ask("runfrom", cfg, start_state, *envs) if envs else "_"
+    else:
+        ans = ctx.ask("run", cfg, *envs) if envs else "_"
     if ans == "bad-op":
         raise RuntimeError("Lean driver rejected the run request: " + " ".join([cfg] + envs)[:400])
     model = [parse_step(s) for s in ans.split("|")] if ans != "_" else []
@@ -749,7 +798,7 @@ def _run(ctx, case, name, kind):
             if st["req"] == mo["req"]:
                 ctx.count("batch_exceeds_active_handled_info")
         if diffs:
-            ctx.violation(f"traj:{'+'.join(diffs)}:{name}", f"{name}: call {k + 1} differs from the model in {diffs}",
+            viol(ctx, f"traj:{'+'.join(diffs)}:{name}", f"{name}: call {k + 1} differs from the model in {diffs}",
                           pub, kind="F", detail={"call": k + 1, "impl": {**st["cur"], "done": st["done"],
                                                                           "req": st["req"], "refined": st["refined"]},
                                                  "model": mo})
@@ -759,7 +808,7 @@ def _run(ctx, case, name, kind):
         rr, e = crashed
         key = crash_key(e, case, exceeds_flag)
         ctx.count("crash_" + key.split(":")[1])
-        ctx.violation(key, f"{name}.run_one_step() call {rr + 1} raised {type(e).__name__}: {e}", pub,
+        viol(ctx, key, f"{name}.run_one_step() call {rr + 1} raised {type(e).__name__}: {e}", pub,
                       detail={"call": rr + 1, "traceback": "".join(traceback.format_exception(type(e), e, e.__traceback__))[-3000:],
                               "state_before": steps[-1]["cur"] if steps else None})
     elif finished_at is None:
